@@ -20,10 +20,11 @@ import Verif.Model.Common
     authority/provisioner/k8sSA.go  K8sSA.authorizeToken, AuthorizeSign/Revoke/SSHSign        (`k8sOp`)
     authority/provisioner/nebula.go Nebula.authorizeToken, Authorize*                         (`nebulaOp`)
     authority/provisioner/acme.go, scep.go   AuthorizeSign / AuthorizeRevoke (token ignored)  (`tokenlessOp`)
+    authority/provisioner/aws.go, gcp.go, azure.go   authorizeToken, AuthorizeSign, AuthorizeSSHSign
+                                    (`awsOp`, `gcpOp`, `azureOp`; modelled from the source, not exercised by the harness)
     go-jose jwt.Claims.ValidateWithLeeway                                                     (`validate`)
 
-  Not modelled: `Authority.UseToken` (one-time use, property C02), the AWS/GCP/Azure provisioners,
-  the contents of the returned sign options, template rendering (no templates configured),
+  Not modelled: `Authority.UseToken` (one-time use, property C02), the contents of the returned sign options, template rendering (no templates configured),
   the `validAfter`/`validBefore` casts of `step.ssh` options (D7, property C18).
 
   Everything outside the repository is an *input*: the parsed token (`Tok`: unverified claims, the
@@ -42,7 +43,7 @@ inductive Op where
   deriving DecidableEq, Repr
 
 inductive PType where
-  | jwk | x5c | sshpop | oidc | k8ssa | nebula | acme | scep
+  | jwk | x5c | sshpop | oidc | k8ssa | nebula | acme | scep | aws | gcp | azure
   deriving DecidableEq, Repr
 
 /-- why a request is refused (diagnostic only; the correspondence compares accept / reject / crash) -/
@@ -64,7 +65,14 @@ inductive Reject where
   | azp | domain | group | notAdmin | identity
   | notSSHToken | sshCertType
   | certNotYetValid | certExpired | certNotHost | serialMismatch | renewDisabled
+  | cloudDocument | cloudFilter | cloudAge | tenant
   deriving DecidableEq, Repr
+
+/-- refusals that happen in `authorizeToken` before `UseToken` records the token (everything up to and
+    including the issued-at gate); every other refusal comes from the provisioner, after `UseToken` -/
+def Reject.beforeUseToken : Reject → Bool
+  | .sshNotEnabled | .parse | .notFound | .tokenless | .disabled | .issuedBeforeStart => true
+  | _ => false
 
 /-- Result of `Authority.Authorize`: accepted (with a value), refused with an error, or a Go panic.
     (`Out α` is `M (Except Reject α)` flattened.) -/
@@ -166,7 +174,8 @@ structure Prov where
   ty : PType
   name : Str
   kid : Str              -- JWK: Key.KeyID
-  clientId : Str         -- OIDC: ClientID
+  clientId : Str         -- OIDC: ClientID; Azure: TenantID
+  audience : Str         -- Azure: Audience (after `Init`: the default management URL when empty)
   oidcIssuer : Str       -- OIDC: issuer of the discovery document
   nameEsc : Str          -- `GetIDForToken()` escaped as a URL fragment (X5C, SSHPOP, Nebula audiences)
   init : Bool            -- false: `Init` failed, the collection holds `provisioner.Uninitialized`
@@ -188,12 +197,27 @@ def Prov.tokenId (p : Prov) : Str :=
   | .nebula => s "nebula/" ++ p.name
   | .acme => s "acme/" ++ p.name
   | .scep => s "scep/" ++ p.name
+  | .aws => s "aws/" ++ p.name
+  | .gcp => s "gcp/" ++ p.name
+  | .azure => p.clientId
+
+/-- `GetTokenID` succeeds, so `UseToken` records the token (K8sSA, ACME and SCEP return an error and
+    the token is not recorded) -/
+def Prov.tracksTokens (p : Prov) : Bool :=
+  match p.ty with
+  | .k8ssa | .acme | .scep => false
+  | _ => true
 
 /-- the `iss` the provisioner's `authorizeToken` passes as `jose.Expected.Issuer` -/
+def gcpIssuer : Str := s "https://accounts.google.com"
+def awsIssuer : Str := s "ec2.amazonaws.com"
+
 def Prov.expIssuer (p : Prov) : Str :=
   match p.ty with
-  | .oidc => p.oidcIssuer
+  | .oidc | .azure => p.oidcIssuer
   | .k8ssa => k8sIssuer
+  | .gcp => gcpIssuer
+  | .aws => awsIssuer
   | _ => p.name
 
 structure Config where
@@ -229,6 +253,20 @@ structure Cr where
                   -- 65-byte P-256 CA key to `ed25519.Verify` when the presented certificate says curve 25519)
   deriving DecidableEq, Repr
 
+/-- facts about a cloud identity token relative to *one* configured AWS / GCP / Azure provisioner:
+    the outcome of the provisioner's own filters on the (verified) payload, computed as coded -/
+structure Cl where
+  fields : Bool   -- GCP: instance id, name, project id, zone non-empty; AWS: identity document parses and
+                  -- accountId, instanceId, privateIp, region non-empty; Azure: `xms_mirid` matches the resource pattern
+  subject : Bool  -- GCP: ServiceAccounts empty or contains sub / email; AWS: DisableCustomSANs off or sub is the
+                  -- instance id, private IP or internal DNS name; Azure: (unused, true)
+  scope : Bool    -- GCP: ProjectIDs filter; AWS: Accounts filter; Azure: ResourceGroups, SubscriptionIDs and ObjectIDs filters
+  age : Bool      -- GCP / AWS: InstanceAge unset or the instance is young enough at `now`; Azure: (unused, true)
+  sshKind : Bool  -- GCP: the requested SSH certificate type is not disabled (DisableSSHCAHost / DisableSSHCAUser) and is user or host
+  deriving DecidableEq, Repr
+
+def Cl.none : Cl := ⟨false, false, false, false, false⟩
+
 def Cr.none : Cr := ⟨false, false, false, false, false, false, false, false⟩
 
 /-- the SSH certificate in the `sshpop` header -/
@@ -261,9 +299,11 @@ structure Tok where
                        -- `step.ssh.certType` is empty or exactly "host" (true when there is no `step.ssh`)
   pop : Option Pop     -- `ExtractSSHPOPCert` result
   cr : List Cr         -- one per configured provisioner, same order as `Config.provs`
+  cl : List Cl := []   -- cloud facts, one per configured provisioner (absent = all false)
   deriving Repr
 
 def Tok.crAt (t : Tok) (i : Nat) : Cr := (t.cr[i]?).getD Cr.none
+def Tok.clAt (t : Tok) (i : Nat) : Cl := (t.cl[i]?).getD Cl.none
 
 /-! ### lookup -/
 
@@ -335,10 +375,10 @@ def opAuds (a : Auds) : Op → List Aud
   | .revoke => a.revoke
   | .sshRevoke => a.sshRevoke
 
-/-- X5C, SSHPOP and Nebula replace `config.Audiences` by `config.Audiences.WithFragment(p.GetIDForToken())` in `Init` -/
+/-- X5C, SSHPOP, Nebula, AWS and GCP replace `config.Audiences` by `config.Audiences.WithFragment(p.GetIDForToken())` in `Init` -/
 def Prov.audFrag (p : Prov) : Option Str :=
   match p.ty with
-  | .x5c | .sshpop | .nebula => some p.nameEsc
+  | .x5c | .sshpop | .nebula | .aws | .gcp => some p.nameEsc
   | _ => none
 
 def provAuds (cfg : Config) (p : Prov) (op : Op) : List (Str × Str) :=
@@ -490,6 +530,70 @@ def nebulaOp (cfg : Config) (p : Prov) (c : Cr) (now : Int) (op : Op) (t : Tok) 
     nebulaTok cfg p c now op t
   | .sshRenew | .sshRekey => baseReject
 
+/-! #### cloud identity provisioners (`aws.go`, `gcp.go`, `azure.go`): sign and ssh-sign only; both use
+  the **sign** audience list (`p.ctl.Audiences.Sign`); none of them tests the subject for emptiness -/
+
+/-- `GCP.authorizeToken`: `c.sig` = some key `keyStore.Get(kid)` returns verifies the token -/
+def gcpTok (cfg : Config) (p : Prov) (c : Cr) (l : Cl) (now : Int) (t : Tok) : Out Unit := do
+  need c.sig .signature
+  validate p.expIssuer now t
+  need (audMatch t.aud (provAuds cfg p .sign)) .audience
+  need l.subject .cloudFilter
+  need l.scope .cloudFilter
+  need l.age .cloudAge
+  need l.fields .cloudDocument
+
+def gcpOp (cfg : Config) (p : Prov) (c : Cr) (l : Cl) (now : Int) (op : Op) (t : Tok) : Out Unit :=
+  match op with
+  | .sign => gcpTok cfg p c l now t
+  | .sshSign => do
+    need p.sshEnabled .sshDisabled
+    need l.sshKind .sshCertType
+    gcpTok cfg p c l now t
+  | _ => baseReject
+
+/-- `AWS.authorizeToken`: `c.sig` = the token verifies under the HMAC key it carries itself
+    (`amazon.signature`), `c.chain` = `checkSignature(document, signature)` against the AWS certificates -/
+def awsTok (cfg : Config) (p : Prov) (c : Cr) (l : Cl) (now : Int) (t : Tok) : Out Unit := do
+  need c.sig .signature
+  need c.chain .chain
+  need l.fields .cloudDocument
+  validate p.expIssuer now t
+  need (audMatch t.aud (provAuds cfg p .sign)) .audience
+  need l.subject .subject
+  need l.scope .cloudFilter
+  need l.age .cloudAge
+
+def awsOp (cfg : Config) (p : Prov) (c : Cr) (l : Cl) (now : Int) (op : Op) (t : Tok) : Out Unit :=
+  match op with
+  | .sign => awsTok cfg p c l now t
+  | .sshSign => do
+    need p.sshEnabled .sshDisabled
+    awsTok cfg p c l now t
+  | _ => baseReject
+
+/-- `Azure.authorizeToken`: audience = `p.Audience` by string equality, issuer of the discovery
+    document, tenant, resource id pattern -/
+def azureTok (p : Prov) (c : Cr) (l : Cl) (now : Int) (t : Tok) : Out Unit := do
+  need c.sig .signature
+  need (p.oidcIssuer.isEmpty || p.oidcIssuer == t.iss) .issuer
+  need (t.aud.any fun a => a.raw == p.audience) .audience
+  validate [] now t
+  need (t.tid == p.clientId) .tenant
+  need l.fields .cloudDocument
+
+/-- the resource-group / subscription / object-id filters are applied by `AuthorizeSign` only;
+    `AuthorizeSSHSign` does not apply them -/
+def azureOp (p : Prov) (c : Cr) (l : Cl) (now : Int) (op : Op) (t : Tok) : Out Unit :=
+  match op with
+  | .sign => do
+    azureTok p c l now t
+    need l.scope .cloudFilter
+  | .sshSign => do
+    need p.sshEnabled .sshDisabled
+    azureTok p c l now t
+  | _ => baseReject
+
 /-- ACME and SCEP provisioners are stored in the same collection under `acme/<name>`, `scep/<name>`;
     their `AuthorizeSign` (ACME: also `AuthorizeRevoke`) ignore the token argument altogether.
     Since 719d1fc `getProvisionerFromToken` never hands a token to them (see `authorize`). -/
@@ -499,8 +603,11 @@ def tokenlessOp (ty : PType) (op : Op) : Out Unit :=
   | .acme, .revoke => .ok ()
   | _, _ => baseReject
 
-def provOp (cfg : Config) (p : Prov) (c : Cr) (now : Int) (op : Op) (t : Tok) : Out Unit :=
+def provOp (cfg : Config) (p : Prov) (c : Cr) (l : Cl) (now : Int) (op : Op) (t : Tok) : Out Unit :=
   match p.ty with
+  | .aws => awsOp cfg p c l now op t
+  | .gcp => gcpOp cfg p c l now op t
+  | .azure => azureOp p c l now op t
   | .jwk => jwkOp cfg p c now op t
   | .x5c => x5cOp cfg p c now op t
   | .sshpop => sshpopOp cfg p c now op t
@@ -533,7 +640,7 @@ def authorize (cfg : Config) (now : Int) (op : Op) (t : Tok) : Out Nat := do
     need (p.ty != .acme && p.ty != .scep) .tokenless
     need p.init .disabled
     need (cfg.disableIat || !issuedBefore cfg t) .issuedBeforeStart
-    provOp cfg p (t.crAt i) now op t
+    provOp cfg p (t.crAt i) (t.clAt i) now op t
     pure i
 
 /-! ### the six token handlers of `api/`: every control-flow path, as the source has it
